@@ -66,7 +66,7 @@ func zzSameIP(a, b net.IP) bool {
 // fields and host verdicts; and the answer to a lookup does not depend on the
 // lookups made before it (cache of 2 entries, so eviction happens too).
 //
-//verif:harness kind=api unwind=64 bound=rules<=2(quick)/3(thorough),queries<=2,hosts=2(quick)/4(thorough),cache=2-entries
+//verif:harness kind=api unwind=64 bound=rules<=2(quick)/3(thorough),queries<=2,hosts=2,cache=2-entries
 func ZZ_C09_FirstMatchAndCache() {
 	nr := 1 + verifChoice("rules", 2)
 	if verifThorough() {
@@ -83,9 +83,7 @@ func ZZ_C09_FirstMatchAndCache() {
 		{Name: "a.example"},
 		{Name: "a.example", IPv4: net.IPv4(1, 2, 3, 4)},
 	}
-	if verifThorough() {
-		hosts = append(hosts, HostInfo{IPv4: net.IPv4(1, 2, 3, 4)}, HostInfo{IPv6: net.ParseIP("2001:db8::1")})
-	}
+	// (three rules with four kinds of host do not finish within the thorough budget: the host kinds stay at two)
 	nq := 2 // three queries over three rules do not finish within the thorough budget
 	for q := 0; q < nq; q++ {
 		h := hosts[verifChoice("host", len(hosts))]
